@@ -605,7 +605,7 @@ func init() {
 	vf.Register(&vf.Check{
 		ID: "C04", Title: "SMTP dialogue stays legal and in step under every reply script",
 		Run: func(r *vf.Run) {
-			r.SetRule("every reply script with at most k deviations from the all-success script (alphabet ok / 4yz / 5yz / drop / multi-line success reply / 421 followed by a disconnect at every command position incl. greeting, EHLO, STARTTLS, AUTH, NOOP, RSET, QUIT) × client configuration × advertised capability subset (another one after STARTTLS; and, as a history, the complementary one on an earlier connection of the same Client) × batch shape (optionally led by a message without recipients / without sender, or holding a nil message) × number of Send calls; each execution runs the real Client against the reference SMTP automaton in lock-step; a case is distinct by (configuration, choice vector)")
+			r.SetRule("every reply script with at most k deviations from the all-success script (alphabet ok / 4yz / 5yz / drop / multi-line success reply / 421 followed by a disconnect at every command position incl. greeting, EHLO, STARTTLS, AUTH, NOOP, RSET, QUIT) × client configuration × advertised capability subset (another one after STARTTLS; and, as a history, the complementary one on an earlier connection of the same Client) × batch shape (optionally led by a message without recipients / without sender, or holding a nil message) × number of Send calls; each execution runs the real Client against the reference SMTP automaton in lock-step; a case is distinct by (configuration, choice vector); 5 sets of concrete 4yz/5yz codes at MAIL, RCPT, DATA and end-of-data (451/550, 452/552, 450/553, 455/555, 421/521)")
 			r.Assume("server never offers PIPELINING", "transport writes succeed after the peer closed (bytes discarded) and the next read reports EOF",
 				"a reply is 'read' once its bytes left the connection (bufio may hold them)")
 			type job struct {
